@@ -67,6 +67,11 @@ impl Buildpack for TestBuildpack {
             "pass_plan" => DetectResultBuilder::pass()
                 .build_plan(BuildPlanBuilder::new().provides("verif").requires("verif").or().provides("alt").build())
                 .build(),
+            // a plan whose first alternative is empty, and an entirely empty plan: both must be written
+            "pass_plan_or" => DetectResultBuilder::pass()
+                .build_plan(BuildPlanBuilder::new().or().provides("node").requires("node").build())
+                .build(),
+            "pass_plan_empty" => DetectResultBuilder::pass().build_plan(BuildPlanBuilder::new().build()).build(),
             // several entries per alternative: exposes any order-sensitivity of the plan writer (C20)
             "pass_plan_multi" => DetectResultBuilder::pass()
                 .build_plan(
